@@ -97,6 +97,16 @@ def contiguous(I):
     return forall(0, length(I) - 1, lambda i: I[i, 1] == I[i + 1, 0])
 
 
+def bnd(P, t):
+    """boundary t of the contiguous pieces P: the start of piece t, and the end of the last piece for t = length(P)"""
+    return ite(t < length(P), P[t, 0], P[length(P) - 1, 1])
+
+
+def keeps(P, I, c):
+    """every start (c = 0) / end (c = 1) of an interval of I is a boundary of P"""
+    return forall(0, length(I), lambda j: exists(0, length(P) + 1, lambda t: bnd(P, t) == I[j, c]))
+
+
 def is_boundary(I, t):
     return exists(0, length(I), lambda i: I[i, 0] == t or I[i, 1] == t)
 
@@ -107,8 +117,8 @@ def merge_labeled_intervals(x_intervals: Arr(Real, None, 2), x_labels: Lst(ObjT)
     n = length(x_intervals)
     m = length(y_intervals)
     requires(n > 0, m > 0, length(x_labels) == n, length(y_labels) == m)
-    requires(positive(x_intervals), ordered(x_intervals), contiguous(x_intervals))
-    requires(positive(y_intervals), ordered(y_intervals), contiguous(y_intervals))
+    requires(positive(x_intervals), ordered(x_intervals))
+    requires(positive(y_intervals), ordered(y_intervals))
     raises(ValueError, when=x_intervals[0, 0] != y_intervals[0, 0] or x_intervals[n - 1, 1] != y_intervals[m - 1, 1], props="C14 C13")
     invariant(lambda: length(x_labels_out) == loop_index(0) and length(y_labels_out) == loop_index(0), loop=0, label='one-label-per-piece',
               havoc={'x_labels_out': 'obj', 'y_labels_out': 'obj'})
@@ -126,6 +136,8 @@ def merge_labeled_intervals(x_intervals: Arr(Real, None, 2), x_labels: Lst(ObjT)
     ensures(forall2_rect(k, n, lambda t, j: implies(x_intervals[j, 0] <= out[t, 0] and out[t, 0] < x_intervals[j, 1], xl[t] == x_labels[j])),
             forall2_rect(k, m, lambda t, j: implies(y_intervals[j, 0] <= out[t, 0] and out[t, 0] < y_intervals[j, 1], yl[t] == y_labels[j])),
             label='each-piece-carries-both-labels')
+    ensures(keeps(out, x_intervals, 0), keeps(out, x_intervals, 1), keeps(out, y_intervals, 0), keeps(out, y_intervals, 1), label='every-input-boundary-is-a-piece-boundary')
+    ensures(forall(0, k + 1, lambda t: is_boundary(x_intervals, bnd(out, t)) or is_boundary(y_intervals, bnd(out, t))), label='every-piece-boundary-is-an-input-boundary')
 
 
 # ----------------------------------------------------------------------------- intervals_to_boundaries
